@@ -280,6 +280,10 @@ func runC10(r *Run, replay *Case) {
 		c10NoFS(r)
 		return
 	}
+	if replay != nil && replay.Input["steps"] != nil {
+		c10FileHistory(r)
+		return
+	}
 	if replay != nil && replay.Input["kind"] == "pair-plain" {
 		mk = func(fsys fs.FS) vuego.Template { return vuego.NewFS(fsys) }
 		long = mk(mfs)
@@ -392,6 +396,29 @@ func runC10(r *Run, replay *Case) {
 		check("sequence", hist, progs[r.Rng.Intn(len(progs))], r.Rng.Intn(3) == 0)
 	}
 	c10NoFS(r)
+	c10FileHistory(r)
+}
+
+// c10FileHistory: "the call's own templates" are the files as they are NOW. A file that was rendered and is then replaced by another
+// revision - with a later, an earlier (a rolled-back release, `cp -p`, an override removed from an overlay) or the zero modification time -
+// is rendered from its current content by the engine that rendered the other revision before (the C15 history machinery, every step compared
+// with a fresh engine).
+func c10FileHistory(r *Run) {
+	for _, f := range []string{"page.vuego", "comp.vuego", "layouts/main.vuego"} {
+		for _, e := range []string{"template-render", "render-file", "vue-render"} {
+			for _, order := range [][]string{{"advance", "back"}, {"back", "back"}, {"back", "advance"}, {"advance", "back-ms"}} {
+				steps := []c15Step{{Op: "render", Entry: e}}
+				for _, m := range order {
+					steps = append(steps, c15Step{Op: "edit", File: f, Mtime: m}, c15Step{Op: "render", Entry: e}, c15Step{Op: "render", Entry: e})
+				}
+				for _, kind := range []string{"", "overlay"} {
+					c := c15Run(steps, kind)
+					c.Tags = append(c.Tags, "stream:file-history")
+					r.Add(c)
+				}
+			}
+		}
+	}
 }
 
 // an engine WITHOUT a filesystem (vuego.New()), used through New() / Assign / RenderString: every ordered pair and triple of requests on one
